@@ -131,6 +131,8 @@ def catalogue():
         "ok-condition-names-with-keyword-prefix": [A.let(v("some-flag"), A.true()), A.let(v("none2"), A.false()), A.let(v("some1"), A.true()), A.let(v("none-of-them"), A.false()),
                                                    A.iff(([A.cond("bool", v("some-flag"))], [A.node(v("f_n"))]), ([A.cond("bool", v("none2"))], [A.node(v("f_n2"))]),
                                                          ([A.cond("bool", v("some1")), A.cond("bool", v("none-of-them"))], [A.node(v("f_n3"))]))],
+        "ok-nested-for-over-loop-variable": [A.forin("f_g", A.lst(A.lst(i(1), i(2)), A.lst(i(3))), [A.forin("f_x", v("f_g"), [A.node(v("f_n"))]),
+                                                                                                     A.let(v("f_c"), A.listc(v("f_y"), "f_y", v("f_g")))])],
         "ok-inner-local-shadows-outer-mutable": mv + [A.iff(([A.cond("bool", A.true())], [A.let(v("fmv"), s("abc")), A.scan(v("fmv"), ("a", [A.node(v("f_n"))]))]))],
         "ok-inner-list-shadows-outer-single": [A.let(v("f_s"), i(1)), A.forin("f_o", A.lst(i(1)), [A.let(v("f_s"), A.lst(i(1), i(2))), A.forin("f_x", v("f_s"), [A.node(v("f_n"))])])],
         "ok-shadow-in-nested-block": [A.let(v("f_s"), i(1)), A.iff(([A.cond("bool", A.true())], [A.let(v("f_s"), i(2))]))],
@@ -304,7 +306,7 @@ def run(tier):
             continue
         # generator sanity (OneFaultOneVerdict on the model side): faults are rejected by the specification, neighbours accepted
         if fault.startswith("none") or fault.startswith("ok-") or fault in ("underscore-capture-unused-ok", "shorthand-ok", "capture-used-only-in-later-call-arg-ok", "plus-capture-as-list-ok"):
-            if not v["ok"] and fault in ("capture-used-only-in-later-call-arg-ok", "plus-capture-as-list-ok", "ok-inner-local-shadows-outer-mutable", "ok-inner-list-shadows-outer-single", "ok-condition-names-with-keyword-prefix", "none", "ok-shadow-in-nested-block", "ok-for-over-list-global", "ok-scan-of-call-of-locals",
+            if not v["ok"] and fault in ("capture-used-only-in-later-call-arg-ok", "plus-capture-as-list-ok", "ok-inner-local-shadows-outer-mutable", "ok-inner-list-shadows-outer-single", "ok-condition-names-with-keyword-prefix", "ok-nested-for-over-loop-variable", "none", "ok-shadow-in-nested-block", "ok-for-over-list-global", "ok-scan-of-call-of-locals",
                                           "ok-set-mutable-in-nested", "ok-runtime-empty-regex", "underscore-capture-unused-ok", "shorthand-ok"):
                 raise C.ToolError("the specification rejects a file built to be valid (%s): %s" % (fault, v))
         elif v["ok"] and not c["id"].startswith("c06gf"):
